@@ -77,6 +77,12 @@ def rebalance_spec(draw):
     else:
         spec["fee"] = {"kind": "none"}
         spec["spread_bps"] = None
+        if with_sub and nt >= 2 and spec["sub"]["prior_weight"] == 0.0 and draw(st.booleans()):
+            # an unfunded sub-strategy running a self-financed long/short book: open positions, value exactly zero
+            a_, b_ = tickers[0], tickers[1]
+            p0[b_], mv[b_], mult[b_] = p0[a_], mv[a_], mult[a_]
+            spec["sub"]["tickers"] = sorted(set(spec["sub"]["tickers"]) | {a_, b_})
+            spec["sub"]["zero_book"] = [a_, b_, draw(st.sampled_from([1.0, 25.0, 1000.0]))]
     return spec
 
 
@@ -121,6 +127,10 @@ def case_rebalance(ctx, spec):
             sv = sub.value
             for t, w in spec["sub"]["inner"].items():
                 sub.rebalance(w, t, base=sv)
+        if spec.get("sub") and spec["sub"].get("zero_book"):
+            a_, b_, q_ = spec["sub"]["zero_book"]
+            s["sub"].transact(q_, child=a_)
+            s["sub"].transact(-q_, child=b_)
         s.update(D0)
         s.update(D1)
         if s.bankrupt or s.value <= 0:
@@ -160,6 +170,8 @@ def case_rebalance(ctx, spec):
         labs.append("dollar_neutral_prior" + ("+cash" if spec["cash"] else ""))
     if spec["cash"]:
         labs.append("cash")
+    if spec.get("sub") and spec["sub"].get("zero_book"):
+        labs.append("zero_value_sub_book" + ("_targeted" if "sub" in targets else "_not_targeted"))
     prior_nonempty = any(v[1] not in (None, 0) for v in before.values())
     if prior_nonempty:
         labs.append("prior_held")
